@@ -375,10 +375,22 @@ class ExternalVariableCollector(NodeVisitor):
             self._visit_nested_scope(node)
         else:
             self.funcnames.add(node.name)
-            returns, node.returns = node.returns, None
-            self.generic_visit(node)
-            node.returns = returns
-            self._visit_annotation(returns)
+            # The default values and decorators are evaluated when the
+            # function is defined, not when it runs: only its parameters and
+            # its body are visited
+            args = node.args
+            for arg in [
+                *getattr(args, "posonlyargs", []),
+                *args.args,
+                args.vararg,
+                *args.kwonlyargs,
+                args.kwarg,
+            ]:
+                if arg is not None:
+                    self.visit(arg)
+            for stmt in node.body:
+                self.visit(stmt)
+            self._visit_annotation(node.returns)
 
     def visit_AnnAssign(self, node):
         self.visit(node.target)
